@@ -68,6 +68,61 @@ def exact_tm(lat_deg, dlon_deg, a, invf):
     return M.real, M.imag, k, gamma
 
 
+def _forward_w(w, a, e, e2):
+    """Z = N + iE and dZ/dw at the complex isometric latitude w = psi + i*dlambda (k0 = 1)."""
+    phic = cmath.atan(cmath.sinh(w))
+    d = 0.0
+    for _ in range(60):
+        s = cmath.sin(phic)
+        c = cmath.cos(phic)
+        d = (_psi(phic, e) - w) * ((1.0 - e2 * s * s) * c) / (1.0 - e2)
+        phic -= d
+        if abs(d) < 1e-15:
+            break
+    tot = 0j
+    h = phic / 2.0
+    for x, wt in zip(_GLX, _GLW):
+        st_ = cmath.sin(h * (x + 1.0))
+        tot += wt * (1.0 - e2 * st_ * st_) ** -1.5
+    s = cmath.sin(phic)
+    return a * (1.0 - e2) * tot * h, a * cmath.cos(phic) / cmath.sqrt(1.0 - e2 * s * s)
+
+
+def exact_tm_inverse(n, e_, a, invf):
+    """(northing-like, easting-like) for k0 = 1, no false origin -> (lat_deg, dlon_deg): Newton on the exact forward mapping,
+    started from the sphere.  Independent of the inverse series of the code under test; used to decide whether a grid
+    coordinate lies in a property's domain *before* the library is asked (accuracy needed there: 1e-6 deg; achieved: 1e-12)."""
+    f = 1.0 / invf
+    e2 = f * (2.0 - f)
+    e = math.sqrt(e2)
+    Z = complex(n, e_)
+    near_pole = abs(n) > 0.95 * a * (1.0 - f / 2.0) * math.pi / 2.0       # within ~5 deg of (or beyond) the end of the meridian
+    try:
+        w = 2.0 * cmath.atanh(cmath.tan(Z / (2.0 * a)))
+        for _ in range(40):
+            Zw, dZ = _forward_w(w, a, e, e2)
+            d = (Zw - Z) / dZ
+            w -= d
+            if abs(d) < 1e-15:
+                break
+        else:
+            if not abs(d) < 1e-12:
+                raise OverflowError("no convergence")
+    except (OverflowError, ZeroDivisionError, ValueError):
+        if near_pole:
+            return None         # no such point (the northing lies beyond the pole), or too close to it to matter: outside every domain
+        raise HarnessError("exact_tm_inverse: Newton did not converge at N=%r E=%r a=%r invf=%r" % (n, e_, a, invf))
+    psi = w.real
+    phi = math.atan(math.sinh(psi))
+    for _ in range(60):
+        sp = math.sin(phi)
+        dphi = (math.asinh(math.tan(phi)) - e * math.atanh(e * sp) - psi) * ((1.0 - e2 * sp * sp) * math.cos(phi)) / (1.0 - e2)
+        phi -= dphi
+        if abs(dphi) < 1e-16:
+            break
+    return math.degrees(phi), math.degrees(w.imag)
+
+
 def project(lat, lon, cm, a, invf, k0, fe, fn):
     """Easting, northing (false northing added iff the point is south of the equator), scale, library-signed convergence."""
     n, e, k, g = exact_tm(lat, lon - cm, a, invf)
@@ -105,6 +160,13 @@ def selftest():
         n, e, k, g = exact_tm(*args)
         if abs(n - N) > 2e-8 + 1e-14 * abs(N) or abs(e - E) > 2e-8 + 1e-14 * abs(E):
             raise HarnessError("tm oracle self-test (frozen mpmath) failed at %r: %r vs %r" % (args, (n, e), (N, E)))
+    # 2b. the inverse used for domain decisions inverts the forward mapping
+    for lat, dl, a_, invf_ in [(-37.0, 2.0, 6378137.0, 298.257222101), (83.9, 29.0, 6378137.0, 298.257222101), (-79.9, -30.0, 6378388.0, 297.0),
+                               (0.0, 12.0, 6300000.0, 150.0), (45.0, 0.0, 6400000.0, 400.0), (1e-7, -1e-7, 6378160.0, 298.25)]:
+        n, e, k, g = exact_tm(lat, dl, a_, invf_)
+        la, dlo = exact_tm_inverse(n, e, a_, invf_)
+        if abs(la - lat) > 1e-10 or abs(dlo - dl) > 1e-10:
+            raise HarnessError("tm oracle self-test (inverse) failed at %r: %r" % ((lat, dl, a_, invf_), (la, dlo)))
     # 3. scale/convergence are the analytic derivative: compare with a finite difference of the mapping itself
     for lat, dl in [(-37.0, 2.5), (60.0, -20.0), (10.0, 28.0)]:
         a, invf = 6378137.0, 298.257222101
